@@ -1160,3 +1160,475 @@ theorem cursive_coincide_btt {p q : Array Pos} {i j len dep : Nat} {f : Bool} {e
 
 
 end RbModel.Gpos
+
+/-! ## kern -/
+
+namespace RbModel.Kern
+open RbModel.Gpos
+
+theorem geti_ok_iff {a : Array KInfo} {i : Nat} {x : KInfo} : geti a i = .ok x ↔ a[i]? = some x := by
+  unfold geti; split <;> simp_all
+
+theorem geti_of_lt {a : Array KInfo} {i : Nat} (h : i < a.size) : geti a i = .ok a[i] := by
+  rw [geti_ok_iff]; simp [h]
+
+/-- `iter.next()` returns the first later glyph that is not skipped, and only if it may match -/
+theorem iterNext_spec (infos : Array KInfo) (mask : Nat) :
+    ∀ (n idx j : Nat), iterNext infos mask idx n = .ok (some j) →
+      idx < j ∧ j ≤ idx + n ∧ (∃ g, infos[j]? = some g ∧ matchKind mask g = 1) ∧
+      ∀ k, idx < k → k < j → ∃ g, infos[k]? = some g ∧ matchKind mask g = 0 := by
+  intro n
+  induction n with
+  | zero => intro idx j h; simp [iterNext] at h
+  | succ n ih =>
+    intro idx j h
+    unfold iterNext at h
+    split at h
+    · cases h
+    · rename_i g hg
+      have hg' := geti_ok_iff.mp hg
+      split at h
+      · rename_i hm
+        simp only [Except.ok.injEq, Option.some.injEq] at h
+        subst h
+        exact ⟨by omega, by omega, ⟨g, hg', hm⟩, fun k h1 h2 => by omega⟩
+      · cases h
+      · rename_i h1 h2
+        obtain ⟨a1, a2, a3, a4⟩ := ih (idx + 1) j h
+        refine ⟨by omega, by omega, a3, ?_⟩
+        intro k hk1 hk2
+        by_cases e : k = idx + 1
+        · subst e
+          refine ⟨g, hg', ?_⟩
+          have : matchKind mask g < 3 := by
+            unfold matchKind
+            split
+            · omega
+            · simp only; split
+              · omega
+              · split <;> omega
+          have h1' : matchKind mask g ≠ 1 := h1
+          have h2' : matchKind mask g ≠ 2 := h2
+          omega
+        · exact a4 k (by omega) hk2
+
+/-- the split of one kerning value -/
+theorem kern_split (kern : Int) : kern / 2 + (kern - kern / 2) = kern := by omega
+
+/-- `kern1 = kern >> 1` is the floor half: the two parts differ by at most one -/
+theorem kern_halves (kern : Int) : 0 ≤ (kern - kern / 2) - kern / 2 ∧ (kern - kern / 2) - kern / 2 ≤ 1 := by omega
+
+theorem kernPair_spec {p q : Array Pos} {i j : Nat} {kern : Int} {h cs fl : Bool} {pi pj : Pos}
+    (hk : kernPair p i j kern h cs = .ok (q, fl)) (hij : i ≠ j) (hpi : p[i]? = some pi) (hpj : p[j]? = some pj) :
+    q.size = p.size ∧ fl = cs ∧ (∀ k, k ≠ i → k ≠ j → q[k]? = p[k]?) ∧
+    q[i]? = some (if cs then pi else if h then { pi with xa := pi.xa + kern / 2 } else { pi with ya := pi.ya + kern / 2 }) ∧
+    q[j]? = some (if cs then (if h then { pj with yo := kern } else { pj with xo := kern })
+                  else if h then { pj with xa := pj.xa + (kern - kern / 2), xo := pj.xo + (kern - kern / 2) }
+                  else { pj with ya := pj.ya + (kern - kern / 2), yo := pj.yo + (kern - kern / 2) }) := by
+  have hi := lt_of_get? hpi
+  have hj := lt_of_get? hpj
+  have hgj : ∀ v, get (put p i v) j = .ok pj := by
+    intro v; rw [get_ok_iff, put_get?_ne _ _ hij]; exact hpj
+  unfold kernPair at hk
+  cases h <;> cases cs <;>
+    simp only [Bool.false_eq_true, if_false, if_true, get_ok_iff.mpr hpi, get_ok_iff.mpr hpj, hgj,
+      Except.ok.injEq, Prod.mk.injEq] at hk <;>
+    obtain ⟨rfl, rfl⟩ := hk
+  · refine ⟨by simp, rfl, ?_, ?_, ?_⟩
+    · intro k h1 h2; rw [put_get?_ne _ _ (Ne.symm h2), put_get?_ne _ _ (Ne.symm h1)]
+    · rw [put_get?_ne _ _ (Ne.symm hij), put_get?_self _ _ hi]; simp
+    · rw [put_get?_self _ _ (by simpa using hj)]; simp
+  · refine ⟨by simp, rfl, ?_, ?_, ?_⟩
+    · intro k h1 h2; rw [put_get?_ne _ _ (Ne.symm h2)]
+    · rw [put_get?_ne _ _ (Ne.symm hij)]; simpa using hpi
+    · rw [put_get?_self _ _ hj]; simp
+  · refine ⟨by simp, rfl, ?_, ?_, ?_⟩
+    · intro k h1 h2; rw [put_get?_ne _ _ (Ne.symm h2), put_get?_ne _ _ (Ne.symm h1)]
+    · rw [put_get?_ne _ _ (Ne.symm hij), put_get?_self _ _ hi]; simp
+    · rw [put_get?_self _ _ (by simpa using hj)]; simp
+  · refine ⟨by simp, rfl, ?_, ?_, ?_⟩
+    · intro k h1 h2; rw [put_get?_ne _ _ (Ne.symm h2)]
+    · rw [put_get?_ne _ _ (Ne.symm hij)]; simpa using hpi
+    · rw [put_get?_self _ _ hj]; simp
+
+/-- `kernBody` calls its continuation only at a later index -/
+theorem kernBody_congr (infos : Array KInfo) (len mask : Nat) (h cs : Bool) (kernOf : Nat → Nat → Int)
+    (k k' : Nat → Array Pos → Bool → M (Array Pos × Bool)) (i : Nat) (p : Array Pos) (fl : Bool)
+    (hk : ∀ i' p' fl', i < i' → k i' p' fl' = k' i' p' fl') :
+    kernBody infos len mask h cs kernOf k i p fl = kernBody infos len mask h cs kernOf k' i p fl := by
+  unfold kernBody
+  split
+  · rfl
+  · split
+    · rfl
+    · split
+      · exact hk _ _ _ (by omega)
+      · cases hit : iterNext infos mask i (len - 1 - i) with
+        | error e => rfl
+        | ok r =>
+          cases r with
+          | none => exact hk _ _ _ (by omega)
+          | some j =>
+            have hj := (iterNext_spec infos mask _ _ _ hit).1
+            simp only
+            split
+            · rfl
+            · split
+              · split
+                · rfl
+                · exact hk _ _ _ hj
+              · exact hk _ _ _ hj
+
+theorem machineKernLoop_fuel (infos : Array KInfo) (len mask : Nat) (h cs : Bool) (kernOf : Nat → Nat → Int) :
+    ∀ (fuel i : Nat) (p : Array Pos) (fl : Bool), len < i + fuel →
+      machineKernLoop infos len mask h cs kernOf (fuel + 1) i p fl =
+      machineKernLoop infos len mask h cs kernOf fuel i p fl := by
+  intro fuel
+  induction fuel with
+  | zero =>
+    intro i p fl hf
+    have : ¬ i < len := by omega
+    simp [machineKernLoop, kernBody, this]
+  | succ fuel ih =>
+    intro i p fl hf
+    show kernBody infos len mask h cs kernOf _ i p fl = kernBody infos len mask h cs kernOf _ i p fl
+    apply kernBody_congr
+    intro i' p' fl' hi'
+    exact ih i' p' fl' (by omega)
+
+/-- any fuel above `len - i` gives the same result as the fuel `machine_kern` passes -/
+theorem machineKernLoop_fuel_any (infos : Array KInfo) (len mask : Nat) (h cs : Bool) (kernOf : Nat → Nat → Int)
+    (i : Nat) (p : Array Pos) (fl : Bool) (fuel extra : Nat) (hf : len < i + fuel) :
+    machineKernLoop infos len mask h cs kernOf (fuel + extra) i p fl =
+    machineKernLoop infos len mask h cs kernOf fuel i p fl := by
+  induction extra with
+  | zero => rfl
+  | succ e ih =>
+    rw [← Nat.add_assoc, machineKernLoop_fuel _ _ _ _ _ _ _ _ _ _ (by omega)]; exact ih
+
+/-- with an empty kern mask `machine_kern` touches nothing -/
+theorem machineKernLoop_mask_off (infos : Array KInfo) (len : Nat) (h cs : Bool) (kernOf : Nat → Nat → Int)
+    (hlen : len ≤ infos.size) :
+    ∀ (fuel i : Nat) (p : Array Pos) (fl : Bool),
+      machineKernLoop infos len 0 h cs kernOf fuel i p fl = .ok (p, fl) := by
+  intro fuel
+  induction fuel with
+  | zero => intro i p fl; rfl
+  | succ fuel ih =>
+    intro i p fl
+    show kernBody infos len 0 h cs kernOf _ i p fl = _
+    unfold kernBody
+    split
+    · rfl
+    · rename_i hi
+      have hi' : i < len := by omega
+      rw [geti_of_lt (by omega)]
+      simp [ih]
+
+theorem kernPair_frame {p q : Array Pos} {i j : Nat} {kern : Int} {h cs f : Bool}
+    (hkp : kernPair p i j kern h cs = .ok (q, f)) :
+    q.size = p.size ∧ ∀ k, k ≠ i → k ≠ j → q[k]? = p[k]? := by
+  unfold kernPair at hkp
+  have two : ∀ (vi vj : Pos), q = put (put p i vi) j vj →
+      q.size = p.size ∧ ∀ k, k ≠ i → k ≠ j → q[k]? = p[k]? := by
+    intro vi vj e; subst e
+    exact ⟨by simp, fun k h1 h2 => by rw [put_get?_ne _ _ (Ne.symm h2), put_get?_ne _ _ (Ne.symm h1)]⟩
+  have one : ∀ (vj : Pos), q = put p j vj →
+      q.size = p.size ∧ ∀ k, k ≠ i → k ≠ j → q[k]? = p[k]? := by
+    intro vj e; subst e
+    exact ⟨by simp, fun k _ h2 => by rw [put_get?_ne _ _ (Ne.symm h2)]⟩
+  cases h <;> cases cs <;> simp only [Bool.false_eq_true, if_false, if_true] at hkp
+  · split at hkp
+    · cases hkp
+    · split at hkp
+      · cases hkp
+      · simp only [Except.ok.injEq, Prod.mk.injEq] at hkp; exact two _ _ hkp.1.symm
+  · split at hkp
+    · cases hkp
+    · simp only [Except.ok.injEq, Prod.mk.injEq] at hkp; exact one _ hkp.1.symm
+  · split at hkp
+    · cases hkp
+    · split at hkp
+      · cases hkp
+      · simp only [Except.ok.injEq, Prod.mk.injEq] at hkp; exact two _ _ hkp.1.symm
+  · split at hkp
+    · cases hkp
+    · simp only [Except.ok.injEq, Prod.mk.injEq] at hkp; exact one _ hkp.1.symm
+
+theorem matchKind_one {mask : Nat} {g : KInfo} (h : matchKind mask g = 1) :
+    g.mask &&& mask ≠ 0 ∧ g.mark = false ∧ g.di = false := by
+  unfold matchKind at h
+  split at h
+  · omega
+  · simp only at h
+    split at h
+    · omega
+    · split at h
+      · rename_i h1 h2 h3; exact ⟨h3, by simpa using h1, by simpa using h2⟩
+      · omega
+
+/-- glyphs outside the kern feature's range (mask bit clear) keep their positions -/
+theorem machineKernLoop_frame (infos : Array KInfo) (len mask : Nat) (h cs : Bool) (kernOf : Nat → Nat → Int) :
+    ∀ (fuel i : Nat) (p q : Array Pos) (fl fl' : Bool),
+      machineKernLoop infos len mask h cs kernOf fuel i p fl = .ok (q, fl') →
+      q.size = p.size ∧ ∀ (k : Nat) (g : KInfo), infos[k]? = some g → g.mask &&& mask = 0 → q[k]? = p[k]? := by
+  intro fuel
+  induction fuel with
+  | zero =>
+    intro i p q fl fl' hq
+    simp only [machineKernLoop, Except.ok.injEq, Prod.mk.injEq] at hq
+    obtain ⟨rfl, _⟩ := hq
+    exact ⟨rfl, fun _ _ _ _ => rfl⟩
+  | succ fuel ih =>
+    intro i p q fl fl' hq
+    change kernBody infos len mask h cs kernOf _ i p fl = _ at hq
+    unfold kernBody at hq
+    split at hq
+    · simp only [Except.ok.injEq, Prod.mk.injEq] at hq
+      obtain ⟨rfl, _⟩ := hq
+      exact ⟨rfl, fun _ _ _ _ => rfl⟩
+    · split at hq
+      · cases hq
+      · rename_i gi hgi
+        have hgi' := geti_ok_iff.mp hgi
+        split at hq
+        · exact ih _ _ _ _ _ hq
+        · rename_i hmi
+          split at hq
+          · cases hq
+          · exact ih _ _ _ _ _ hq
+          · rename_i j hit
+            obtain ⟨hij, _, ⟨gj', hgj', hmk⟩, _⟩ := iterNext_spec infos mask _ _ _ hit
+            have hmj := (matchKind_one hmk).1
+            split at hq
+            · cases hq
+            · simp only at hq
+              split at hq
+              · split at hq
+                · cases hq
+                · rename_i p' f hkp
+                  obtain ⟨hs, hfr⟩ := ih _ _ _ _ _ hq
+                  obtain ⟨hs2, hfr2⟩ := kernPair_frame hkp
+                  refine ⟨by rw [hs, hs2], fun k g hk hm => ?_⟩
+                  have hki : k ≠ i := by intro e; subst e; rw [hgi'] at hk; cases hk; exact hmi hm
+                  have hkj : k ≠ j := by intro e; subst e; rw [hgj'] at hk; cases hk; exact hmj hm
+                  rw [hfr k g hk hm, hfr2 k hki hkj]
+              · exact ih _ _ _ _ _ hq
+
+
+/-! ### format 0 binary search -/
+
+/-- keys strictly increasing (what the `kern` format 0 spec requires of the pair list) -/
+def SortedKeys (keys : Array Nat) : Prop :=
+  ∀ (a b x y : Nat), a < b → keys[a]? = some x → keys[b]? = some y → x < y
+
+theorem bsearchLoop_spec (keys : Array Nat) (needle : Nat) (hs : SortedKeys keys) :
+    ∀ (fuel base size : Nat), 1 ≤ size → size ≤ fuel + 1 → base + size ≤ keys.size →
+      ∃ r, bsearchLoop keys needle fuel base size = some r ∧ r < keys.size ∧
+        ∀ t, keys[t]? = some needle → base ≤ t → t < base + size → r = t := by
+  intro fuel
+  induction fuel with
+  | zero =>
+    intro base size h1 h2 h3
+    exact ⟨base, rfl, by omega, fun t _ _ _ => by omega⟩
+  | succ fuel ih =>
+    intro base size h1 h2 h3
+    unfold bsearchLoop
+    by_cases hsz : size > 1
+    · simp only [hsz, if_true]
+      have hmid : base + size / 2 < keys.size := by omega
+      have hk : keys[base + size / 2]? = some keys[base + size / 2] := by simp [hmid]
+      rw [hk]
+      simp only
+      generalize keys[base + size / 2] = k at hk
+      by_cases hgt : k > needle
+      · simp only [hgt, if_true]
+        obtain ⟨r, hr, hr2, hr3⟩ := ih base (size - size / 2) (by omega) (by omega) (by omega)
+        refine ⟨r, hr, hr2, fun t ht hb1 hb2 => hr3 t ht hb1 ?_⟩
+        by_cases hlt : t < base + size / 2
+        · omega
+        · exfalso
+          by_cases e : t = base + size / 2
+          · subst e; rw [hk] at ht; cases ht; omega
+          · have := hs (base + size / 2) t k needle (by omega) hk ht; omega
+      · simp only [hgt, if_false]
+        obtain ⟨r, hr, hr2, hr3⟩ := ih (base + size / 2) (size - size / 2) (by omega) (by omega) (by omega)
+        refine ⟨r, hr, hr2, fun t ht hb1 hb2 => hr3 t ht ?_ (by omega)⟩
+        by_cases hlt : t < base + size / 2
+        · exfalso
+          have := hs t (base + size / 2) needle k hlt ht hk; omega
+        · omega
+    · simp only [hsz, if_false]
+      exact ⟨base, rfl, by omega, fun t _ _ _ => by omega⟩
+
+/-- a sorted format-0 table returns exactly the value stored for the pair … -/
+theorem fmt0Kerning_hit (pairs : Array (Nat × Int)) (l r : Nat) (v : Int) (t : Nat)
+    (hs : SortedKeys (pairs.map (·.1))) (ht : pairs[t]? = some (l * 65536 + r, v)) :
+    fmt0Kerning pairs l r = v := by
+  have htl : t < pairs.size := by
+    by_cases h : t < pairs.size
+    · exact h
+    · simp [Array.getElem?_eq_none (Nat.le_of_not_lt h)] at ht
+  unfold fmt0Kerning
+  have hne : ¬ pairs.size = 0 := by omega
+  simp only [hne, if_false]
+  obtain ⟨r', hr, hr2, hr3⟩ := bsearchLoop_spec (pairs.map (·.1)) (l * 65536 + r) hs pairs.size 0 pairs.size
+    (by omega) (by omega) (by simp)
+  have hkt : (pairs.map (·.1))[t]? = some (l * 65536 + r) := by simp [ht]
+  have := hr3 t hkt (by omega) (by omega)
+  subst this
+  rw [hr]
+  simp only [ht, if_true]
+
+/-- … and 0 for a pair that is not in the table (sorted or not) -/
+theorem fmt0Kerning_miss (pairs : Array (Nat × Int)) (l r : Nat)
+    (hm : ∀ (t : Nat) (k : Nat) (v : Int), pairs[t]? = some (k, v) → k ≠ l * 65536 + r) :
+    fmt0Kerning pairs l r = 0 := by
+  unfold fmt0Kerning
+  simp only
+  split
+  · rfl
+  · split
+    · rfl
+    · split
+      · rfl
+      · rename_i k v hkv
+        have := hm _ k v hkv
+        simp [this]
+
+
+/-! ### the reverse bracket of the driver -/
+
+theorem reversePos_size {α} (a : Array α) (len : Nat) (h : len ≤ a.size) : (reversePos a len).size = a.size := by
+  unfold reversePos
+  split
+  · rfl
+  · simp; omega
+
+theorem reversePos_get? {α} (a : Array α) (len k : Nat) (h : len ≤ a.size) :
+    (reversePos a len)[k]? = if k < len then a[len - 1 - k]? else a[k]? := by
+  have hm : min len a.size = len := Nat.min_eq_left h
+  unfold reversePos
+  split
+  · rename_i h2
+    split
+    · have : len = 1 ∧ k = 0 := by omega
+      obtain ⟨rfl, rfl⟩ := this; rfl
+    · rfl
+  · by_cases hk : k < len
+    · simp only [hk, if_true]
+      rw [Array.getElem?_append_left (by simp [hm]; exact hk)]
+      rw [Array.getElem?_reverse (by simp [hm]; exact hk)]
+      simp only [Array.size_extract, hm, Nat.sub_zero]
+      rw [Array.getElem?_extract]
+      have : len - 1 - k < min len a.size - 0 := by omega
+      simp only [this, if_true, Nat.zero_add]
+    · simp only [hk, if_false]
+      rw [Array.getElem?_append_right (by simp [hm]; omega)]
+      simp only [Array.size_reverse, Array.size_extract, hm, Nat.sub_zero]
+      rw [Array.getElem?_extract]
+      by_cases hk2 : k < a.size
+      · have : k - len < min a.size a.size - len := by simp; omega
+        simp only [this, if_true]
+        congr 1; omega
+      · have : ¬ k - len < min a.size a.size - len := by simp; omega
+        simp only [this, if_false]
+        rw [Array.getElem?_eq_none (by omega)]
+
+theorem reversePos_involutive {α} (a : Array α) (len : Nat) (h : len ≤ a.size) :
+    reversePos (reversePos a len) len = a := by
+  apply Array.ext_getElem?
+  intro k
+  have hs := reversePos_size a len h
+  rw [reversePos_get? _ len k (by omega)]
+  by_cases hk : k < len
+  · simp only [hk, if_true]
+    rw [reversePos_get? a len _ h]
+    have : len - 1 - k < len := by omega
+    simp only [this, if_true]
+    congr 1; omega
+  · simp only [hk, if_false]
+    rw [reversePos_get? a len k h]
+    simp [hk]
+
+theorem machineKern_pos_size {infos : Array KInfo} {p q : Array Pos} {len mask : Nat} {d : Dir} {cs f : Bool}
+    {kernOf : Nat → Nat → Int} (h : machineKern infos p len mask d cs kernOf = .ok (q, f)) : q.size = p.size :=
+  (machineKernLoop_frame infos len mask _ cs kernOf _ _ _ _ _ _ h).1
+
+/-- one subtable keeps the glyph order when the text is forward or kerning is requested -/
+theorem kernStep_infos (requested : Bool) (mask : Nat) (d : Dir) (sm : KSub → KBuf → KBuf)
+    (hsm : ∀ s b, (sm s b).infos = b.infos ∧ (sm s b).len = b.len)
+    (hok : d.isForward = true ∨ requested = true)
+    (seen seen' : Bool) (b b' : KBuf) (s : KSub) (hlen : b.len ≤ b.infos.size)
+    (h : kernStep requested mask d sm (seen, b) s = .ok (seen', b')) :
+    b'.infos = b.infos ∧ b'.len = b.len := by
+  unfold kernStep at h
+  simp only at h
+  split at h
+  · simp only [Except.ok.injEq, Prod.mk.injEq] at h; obtain ⟨_, rfl⟩ := h; exact ⟨rfl, rfl⟩
+  · split at h
+    · simp only [Except.ok.injEq, Prod.mk.injEq] at h; obtain ⟨_, rfl⟩ := h; exact ⟨rfl, rfl⟩
+    · -- the buffer after the cross-stream chain attach: same infos / len
+      generalize hb1 : (if (!seen && s.crossStream) = true then
+          (true, { b with pos := b.pos.map (fun q => { q with atype := ATTACH_CURSIVE, chain := if d.isForward = true then -1 else 1 }) })
+          else (seen, b)) = st1 at h
+      have h1 : st1.2.infos = b.infos ∧ st1.2.len = b.len := by
+        rw [← hb1]; split <;> exact ⟨rfl, rfl⟩
+      obtain ⟨sn1, b1⟩ := st1
+      simp only at h h1
+      cases hrev : d.isBackward
+      · -- forward: no reversal at all
+        simp only [hrev, Bool.false_eq_true, if_false] at h
+        split at h
+        · simp only [Except.ok.injEq, Prod.mk.injEq] at h; obtain ⟨_, rfl⟩ := h
+          rw [(hsm s b1).1, (hsm s b1).2]; exact h1
+        · split at h
+          · simp only [Except.ok.injEq, Prod.mk.injEq] at h; obtain ⟨_, rfl⟩ := h; exact h1
+          · split at h
+            · cases h
+            · simp only [Except.ok.injEq, Prod.mk.injEq] at h; obtain ⟨_, rfl⟩ := h; exact h1
+      · -- backward: reversed twice
+        have hreq : requested = true := by
+          rcases hok with hf | hr
+          · simp [Dir.isBackward, hf] at hrev
+          · exact hr
+        simp only [hrev, if_true] at h
+        have hl1 : b1.len ≤ b1.infos.size := by rw [h1.1, h1.2]; exact hlen
+        split at h
+        · simp only [Except.ok.injEq, Prod.mk.injEq] at h; obtain ⟨_, rfl⟩ := h
+          simp only [KBuf.reverse]
+          rw [(hsm s _).1, (hsm s _).2]
+          simp only
+          rw [reversePos_involutive _ _ hl1]; exact h1
+        · simp only [hreq, Bool.not_true, Bool.false_eq_true, if_false] at h
+          split at h
+          · cases h
+          · simp only [Except.ok.injEq, Prod.mk.injEq] at h; obtain ⟨_, rfl⟩ := h
+            simp only [KBuf.reverse]
+            rw [reversePos_involutive _ _ hl1]; exact h1
+
+theorem kernDriver_infos (requested : Bool) (mask : Nat) (d : Dir) (sm : KSub → KBuf → KBuf)
+    (hsm : ∀ s b, (sm s b).infos = b.infos ∧ (sm s b).len = b.len)
+    (hok : d.isForward = true ∨ requested = true) :
+    ∀ (subs : List KSub) (seen : Bool) (b : KBuf) (st : Bool × KBuf), b.len ≤ b.infos.size →
+      subs.foldlM (kernStep requested mask d sm) (seen, b) = .ok st →
+      st.2.infos = b.infos ∧ st.2.len = b.len := by
+  intro subs
+  induction subs with
+  | nil =>
+    intro seen b st _ h
+    simp only [List.foldlM, pure, Except.pure, Except.ok.injEq] at h
+    subst h; exact ⟨rfl, rfl⟩
+  | cons s rest ih =>
+    intro seen b st hlen h
+    simp only [List.foldlM, bind, Except.bind] at h
+    split at h
+    · cases h
+    · rename_i st1 hst1
+      obtain ⟨sn1, b1⟩ := st1
+      obtain ⟨e1, e2⟩ := kernStep_infos requested mask d sm hsm hok seen sn1 b b1 s hlen hst1
+      obtain ⟨e3, e4⟩ := ih sn1 b1 st (by rw [e1, e2]; exact hlen) h
+      exact ⟨by rw [e3, e1], by rw [e4, e2]⟩
+
+
+end RbModel.Kern
